@@ -701,3 +701,19 @@ mut('C03', 'parser', """        grid_str = TRAILING_NL_RE.sub('', grid_str)
         if text:
             text += '\\n'
         grid_data = [piece for piece in GRID_SEP.split(text) if piece]""", 'OK', name='refactor: rename locals in parse framing')
+
+# ---- C19 additions (reverts of the later fixes) ---------------------------------------
+mut('C19', 'grid', """        elif isinstance(v2, (datetime.time, datetime.datetime,
+                             Quantity, Coordinate)):
+            # v1 is none of these kinds (a Quantity would otherwise compare
+            # equal to a plain number from one side only)
+            return False
+""", "", name='revert fix: right-operand kind guard')
+mut('C19', 'grid', """            return (v1 == v2) or (v1 != v1 and v2 != v2) or \\
+                   abs(v1 - v2) < 0.000001""", """            return abs(v1 - v2) < 0.000001""", name='revert fix: NaN/INF reflexivity')
+mut('C19', 'grid', """                    set(self.column[col].keys()) != \\
+                    set(other.column[col].keys()):""", """                    len(self.column[col]) != len(other.column[col]):""", name='revert fix: column metadata tag names')
+mut('C19', 'grid', """        elif isinstance(v1, bool) or isinstance(v2, bool):
+            # a boolean is not a number
+            return isinstance(v1, bool) and isinstance(v2, bool) and v1 == v2
+""", "", name='revert fix: booleans vs numbers')
